@@ -1075,6 +1075,8 @@ func c07(seed int64, thorough bool) {
 	c07process(rng, thorough)
 	// 9. Write failing with real error kinds x every byte count 0..16, later Writes of the call succeed
 	emitTransmitFaults(rng, randFrame, thorough)
+	// 12. packet connections: one datagram per Read, what does not fit the offered buffer is discarded
+	c07packets(rng, thorough)
 	// 11. a Transmitter and a Receiver on one shared connection of every kind Dial returns
 	c07shared(rng, thorough)
 	// 10. goroutines sharing one Transmitter: each pending Write must carry its own frame
@@ -1715,6 +1717,202 @@ func c07shared(rng *rand.Rand, thorough bool) {
 	}
 	for k, n := range sharedSkipped {
 		fmt.Fprintf(os.Stderr, "verif_socketcan: %d shared-connection scenarios skipped: %s\n", n, k)
+	}
+}
+
+// ---------------------------------------------------------------- C07: packet (datagram) connections
+
+type packetReader struct {
+	dgrams [][]byte
+	pos    int
+	log    []string
+}
+
+func (s *packetReader) Read(p []byte) (int, error) {
+	if s.pos >= len(s.dgrams) {
+		s.log = append(s.log, fmt.Sprintf("%x:z", len(p)))
+		return 0, io.EOF
+	}
+	d := s.dgrams[s.pos]
+	s.pos++
+	n := copy(p, d) // what does not fit is lost, as with recvfrom on a datagram socket
+	s.log = append(s.log, fmt.Sprintf("%x:%s", len(p), hex.EncodeToString(p[:n])))
+	return n, nil
+}
+
+func (s *packetReader) Close() error { return nil }
+
+// logs len(p) and the data of every Read of a real connection
+type readLogConn struct {
+	net.Conn
+	log []string
+}
+
+func (c *readLogConn) Read(p []byte) (int, error) {
+	n, err := c.Conn.Read(p)
+	if err == nil {
+		c.log = append(c.log, fmt.Sprintf("%x:%s", len(p), hex.EncodeToString(p[:n])))
+	}
+	return n, err
+}
+
+func dgramStrs(dgrams [][]byte) string {
+	ss := make([]string, len(dgrams))
+	for i, d := range dgrams {
+		ss[i] = "-"
+		if len(d) > 0 {
+			ss[i] = hex.EncodeToString(d)
+		}
+	}
+	return strings.Join(ss, " ")
+}
+
+func emitPackets(dgrams [][]byte) {
+	total := 0
+	for _, d := range dgrams {
+		total += len(d)
+	}
+	rd := &packetReader{dgrams: dgrams}
+	var icpt []can.Frame
+	r := socketcan.NewReceiver(rd, socketcan.ReceiverFrameInterceptor(func(f can.Frame) { icpt = append(icpt, f) }))
+	var events []string
+	stops := 0
+	for calls := 0; stops < 2; calls++ {
+		if calls >= total/16+4 {
+			events = append(events, "H")
+			break
+		}
+		icpt = icpt[:0]
+		ok, panicked := safeReceive(r)
+		if panicked {
+			events = append(events, "P")
+			break
+		}
+		if ok {
+			events = append(events, "T:"+icptStr(icpt)+":"+frameStr(r.Frame())+":"+b01(r.HasErrorFrame())+":"+errFrameStr(r.ErrorFrame()))
+		} else {
+			events = append(events, "F:"+icptStr(icpt)+":"+frameStr(r.Frame())+":"+errCode(r.Err()))
+			stops++
+		}
+	}
+	fmt.Fprintf(out, "G script %s | %s | %s\n", dgramStrs(dgrams), strings.Join(rd.log, " "), strings.Join(events, " "))
+}
+
+// the same on the real UDP transceiver: the datagrams are written to the connection (which receives
+// its own multicast), then floor(total/16) frames are received
+func emitPacketsUDP(rng *rand.Rand, dgrams [][]byte) {
+	conn, cleanup := dialShared(rng, "udp")
+	if conn == nil {
+		sharedSkipped["udp-datagrams"]++
+		return
+	}
+	defer cleanup()
+	total := 0
+	for _, d := range dgrams {
+		if _, err := conn.Write(d); err != nil {
+			sharedSkipped["udp-datagrams-write"]++
+			return
+		}
+		total += len(d)
+	}
+	lc := &readLogConn{Conn: conn}
+	var icpt []can.Frame
+	r := socketcan.NewReceiver(lc, socketcan.ReceiverFrameInterceptor(func(f can.Frame) { icpt = append(icpt, f) }))
+	var events []string
+	for k := 0; k < total/16; k++ {
+		icpt = icpt[:0]
+		type res struct{ ok, panicked bool }
+		done := make(chan res, 1)
+		go func() {
+			ok, p := safeReceive(r)
+			done <- res{ok, p}
+		}()
+		var x res
+		select {
+		case x = <-done:
+		case <-time.After(3 * time.Second):
+			events = append(events, "H")
+			k = total // give up: the receiver waits for bytes that were discarded
+			continue
+		}
+		if x.panicked {
+			events = append(events, "P")
+			break
+		}
+		if !x.ok {
+			events = append(events, "F:"+icptStr(icpt)+":"+frameStr(r.Frame())+":"+causeCode(r.Err()))
+			break
+		}
+		events = append(events, "T:"+icptStr(icpt)+":"+frameStr(r.Frame())+":"+b01(r.HasErrorFrame())+":"+errFrameStr(r.ErrorFrame()))
+	}
+	fmt.Fprintf(out, "G udp %s | %s | %s\n", dgramStrs(dgrams), strings.Join(lc.log, " "), strings.Join(events, " "))
+}
+
+func c07packets(rng *rand.Rand, thorough bool) {
+	frames := func(k int) []byte { return stream(rng, k, 0) }
+	// one datagram of 1..64 frames; the same after an 8-byte fragment and before a trailing fragment
+	for k := 1; k <= 64; k++ {
+		emitPackets([][]byte{frames(k)})
+		bs := stream(rng, k+1, 0)
+		emitPackets([][]byte{bs[:8], bs[8 : 8+16*k], bs[8+16*k:]})
+		emitPackets([][]byte{frames(k), frames(1), frames(k)})
+	}
+	// odd sizes: a stream cut into datagrams of arbitrary sizes
+	n := 300
+	if thorough {
+		n = 6000
+	}
+	for i := 0; i < n; i++ {
+		bs := stream(rng, rng.Intn(40), rng.Intn(16))
+		var ds [][]byte
+		for len(bs) > 0 {
+			k := 1 + rng.Intn([]int{8, 24, 100, 700}[rng.Intn(4)])
+			if k > len(bs) {
+				k = len(bs)
+			}
+			ds = append(ds, bs[:k])
+			bs = bs[k:]
+			if rng.Intn(20) == 0 {
+				ds = append(ds, nil) // an empty datagram
+			}
+		}
+		emitPackets(ds)
+	}
+	// datagrams around the room a Read is offered (2033..4096 bytes), after 0..200 single frames that move
+	// the scanner's read position through its buffer
+	for _, size := range []int{2032, 2033, 2034, 2048, 2049, 4080, 4081, 4096, 5000} {
+		for _, pre := range []int{0, 1, 100, 127, 128, 129, 200} {
+			var ds [][]byte
+			for i := 0; i < pre; i++ {
+				ds = append(ds, frames(1))
+			}
+			big := make([]byte, size)
+			rng.Read(big)
+			ds = append(ds, big, frames(2))
+			emitPackets(ds)
+		}
+	}
+	// the real UDP transceiver
+	for _, ks := range [][]int{{1}, {2}, {3, 1}, {64}, {1, 17, 2}, {5, 5, 5, 5}} {
+		var ds [][]byte
+		for _, k := range ks {
+			ds = append(ds, frames(k))
+		}
+		emitPacketsUDP(rng, ds)
+	}
+	for i := 0; i < 6; i++ {
+		bs := stream(rng, 2+rng.Intn(30), 0)
+		cuts := [][]byte{bs[:8]}
+		bs = bs[8:]
+		for len(bs) > 0 {
+			k := 1 + rng.Intn(300)
+			if k > len(bs) {
+				k = len(bs)
+			}
+			cuts = append(cuts, bs[:k])
+			bs = bs[k:]
+		}
+		emitPacketsUDP(rng, cuts)
 	}
 }
 
